@@ -21,7 +21,7 @@ PROPS = {
         "assumptions": ["semantics are invariant under order-preserving relabelling of qubits (Lean sees compact ids)"],
     },
     "C12": {
-        "lean_modules": ["StimModel.Props.C12", "StimModel.Core.Pauli", "StimModel.Core.Local",
+        "lean_modules": ["StimModel.Props.C12", "StimModel.Props.C12b", "StimModel.Core.Pauli", "StimModel.Core.Local", "StimModel.Core.Two",
                          "StimModel.Generated.GateThms", "StimModel.Generated.PauliRefThms"],
         "areas": [
             {"area": "gatetab", "n": 1, "extra": ["PauliRef"]},
@@ -33,7 +33,7 @@ PROPS = {
                 "string); distinct = distinct case descriptions with at least one comparison",
         "trusted_base": [],
         "partial": ["word_parallel_counter_correct (the 2-bit SIMD counter) is validated by correspondence at every word-boundary length, not proved",
-                    "after_mul is proved for single-qubit gates; two-qubit gates use the same lifting lemma (conj2_mul_split) but the instantiation over the gate table is not yet assembled"],
+                    "after_mul is proved for single-qubit gates (after_mul_single) and two-qubit unitaries (after_mul_pair / after_mul_pair_swapped, instantiated over the regenerated gate table) in terms of the local conjugation conj1/conj2; that the executable propagator propInstr applies exactly these conjugations target by target is validated by correspondence"],
         "assumptions": ["propagation is invariant under order-preserving relabelling of the qubits the circuit touches; untouched positions are checked unchanged by the harness"],
     },
     "C11": {
@@ -53,7 +53,7 @@ PROPS = {
         "assumptions": [],
     },
     "C09": {
-        "lean_modules": ["StimModel.Props.C09", "StimModel.Core.R8", "StimModel.Core.Uint", "StimModel.Props.C09b"],
+        "lean_modules": ["StimModel.Props.C09", "StimModel.Core.R8", "StimModel.Core.Uint", "StimModel.Props.C09b", "StimModel.Props.C09c"],
         "builds": ["asan"],
         "areas": [
             {"area": "fmt", "n": {"quick": 1600, "thorough": 40000}, "builds": ["asan"]},
@@ -64,8 +64,8 @@ PROPS = {
                 "all four reader entry points x 3 word widths vs the Lean decoders on writer output, mutated/truncated output and random bytes, under ASan+UBSan; "
                 "distinct = distinct case descriptions with at least one comparison",
         "trusted_base": ["ASan/UBSan as the memory-safety observer for hostile inputs"],
-        "partial": ["rt_hits / rt_dets (decimal index round trip through the 64-bit accumulating reader) are validated by correspondence; the building block readUint_digits is proved",
-                    "ptb64 round trip validated by correspondence"],
+        "partial": ["ptb64: the round trip is proved per 64-shot group; the concatenation of groups into a whole file is validated by correspondence (for the five record formats whole files are proved: rt_file)",
+                    "stim convert / stim m2d refuse ptb64 as an output format (explicit refusal): that direction is not covered"],
         "assumptions": ["hits/dets input naming an index twice and b8 padding bits that are set are declared don't-care for bit values (no writer produces them); only safety is compared there"],
     },
     "C20": {
@@ -131,7 +131,7 @@ PROPS = {
                 "(relative to the implementation's reference sample, itself checked to be a possible noiseless record); measurements_to_detection_events on sampled and adversarial "
                 "measurement tables with per-shot sweep bits, with and without the reference sample, for the parities that are deterministic in the noiseless circuit; distinct = distinct circuit texts",
         "trusted_base": [],
-        "partial": ["the CLI option matrix of stim detect / stim m2d (append/prepend/obs_out x formats x streaming) is not yet driven as subprocesses",
+        "partial": ["stim detect / stim m2d are driven in-process through stim::main, not as subprocesses reading stdin/stdout",
                     "detector_is_parity for the inline evaluation inside the frame model is validated by correspondence"],
         "assumptions": ["Pauli targets in OBSERVABLE_INCLUDE are a documented exception for m2d; their sampled contribution is not compared"],
     },
@@ -211,7 +211,7 @@ PROPS = {
                 "Lean oracle (det/obs = XOR of the fired errors of the flattened model); the recorded error file re-encoded in 01/b8/r8/hits/dets and replayed must reproduce det, obs and err files "
                 "byte for byte; det output re-read from a second format; under ASan+UBSan; distinct = distinct model texts",
         "trusted_base": ["firing rates / independence are C05's statistical tier"],
-        "partial": ["stim sample_dem as a subprocess is not driven; sample_write is called in-process"],
+        "partial": ["stim sample_dem is driven in-process through stim::main (files for --in/--out), not as a subprocess on stdin/stdout"],
         "assumptions": [],
     },
     "C17": {
